@@ -21,7 +21,7 @@ LEVEL_TEXT = ("Clouds of 10^4-10^6 particles are stepped 1-50 times by the real 
               "and two runs must be identical.")
 LEVEL_NOTE = "Restated as bounded statistics: moments and independence only (no normality test). A 6-sigma band with 1e5 particles is +-2.7 % on the variance: false alarms at the 1e-8 level per test, factor-2/unit errors far outside."
 RULE = ("case = (D, Dz, dt, dx, dy, steps, cloud size, seed). Non-trivial: D > 0 or Dz > 0 with at least 2 steps (independence across steps observable); distinct by parameters.")
-MANDATORY = ["e2e_version_1_configuration", "e2e_row_dependent_spacing_subgrid_off_diagonal", "coefficients_of_1e-8_or_less", "few_particle_series_tests", "particles_in_state_1", "particles_in_state_2", "horizontal_variance_tests", "vertical_variance_tests", "mean_tests", "cross_covariance_tests", "lag1_tests", "neighbour_tests", "growth_tests",
+MANDATORY = ["restarted_run_step_independence_tests", "restarted_run_total_variance_tests", "records_of_a_later_configuration_without_coefficients", "e2e_version_1_configuration", "e2e_row_dependent_spacing_subgrid_off_diagonal", "coefficients_of_1e-8_or_less", "few_particle_series_tests", "particles_in_state_1", "particles_in_state_2", "horizontal_variance_tests", "vertical_variance_tests", "mean_tests", "cross_covariance_tests", "lag1_tests", "neighbour_tests", "growth_tests",
              "zero_diffusion_deterministic", "anisotropic_grid", "rng_seeded_by_harness", "e2e_variance_tests", "horizontal_vertical_covariance_tests", "varying_metric_variance_tests", "vertical_advection_with_diffusion_tests"]
 ASSUMPTIONS = ["still water, uniform metric, no boundaries reached (grid and water column far larger than the cloud)"]
 TIMEOUT = {"quick": 900, "thorough": 3400}
@@ -121,7 +121,71 @@ def gen_cases(tier: str, seed: int) -> list[dict[str, Any]]:
         dt = int(rng.choice([60, 600]))
         cases.append(dict(kind="e2e", idx=10**5 + i, rngseed=int(seed * 7919 + i), D=float(rng.uniform(0.02, 0.6)) * dx * dx / (2 * dt), dt=dt, dx=dx,
                           dy=dx * float(rng.choice([1.0, 0.8, 1.6])), steps=int(rng.integers(2, 6)), n=20000))
+    for i in range(2 if tier == "quick" else 40):
+        rng = C.rng_for(seed, 112, i)
+        dx = float(rng.choice([100.0, 800.0, 4000.0]))
+        dt = int(rng.choice([60, 600]))
+        cases.append(dict(kind="seq", idx=3 * 10**5 + i, D=float(rng.uniform(0.02, 0.3)) * dx * dx / (2 * dt), Dz=float(rng.uniform(0.2, 1.0)) / (2 * dt), dt=dt, dx=dx,
+                          steps_a=int(rng.integers(2, 5)), steps_b=int(rng.integers(2, 5)), n=20000))
     return cases
+
+
+def run_seq(case: dict[str, Any], wd: Path) -> dict[str, Any]:
+    """One process, ladim's own generator (nothing seeded by the harness): a run with D, Dz > 0, its warm-started continuation, then a run whose
+    configuration leaves the coefficients out (documented default 0)."""
+    from vmon.scenario import all_records, read_outputs, run_scenario  # noqa: PLC0415
+
+    D, Dz, dt, dx, n, sa, sb = case["D"], case["Dz"], case["dt"], case["dx"], case["n"], case["steps_a"], case["steps_b"]
+    V: list = []
+    sit: dict[str, int] = {}
+    cnt: dict[str, int] = {}
+    desc = dict(kind="seq", D=D, Dz=Dz, dt=dt, dx=dx, steps_before_restart=sa, steps_after_restart=sb, n=n)
+    end = str(tadd(C.T0, dt * (sa + sb + 1)))
+    w = C.still_world(C.T0, end, imax=60, jmax=60, N=2, metric=dict(kind="uniform", dx=dx, dy=dx))
+    rel = dict(columns=["release_time", "mult", "X", "Y", "Z"], rows=[[C.T0, n, 30.0, 30.0, 50.0]], header=True)
+    run1 = dict(start=C.T0, stop=str(tadd(C.T0, dt * (sa + 1))), dt=dt, advection="EF", diffusion=D, vertdiff=Dz, release=rel, output=dict(period=dt, filename="leg1.nc"))
+    res1, _c1, world = run_scenario(dict(world=w, run=run1), wd)
+    if not res1.ok:
+        V.append(C.viol(f"diffusion run did not complete: {res1.exc}", tb=res1.tb[-1200:], **desc))
+        return C.result(V, sit, cnt, nontrivial=True, key=str(desc), sample=desc)
+    rec1 = all_records(read_outputs(res1.outputs))
+    run2 = dict(run1, stop=end, warm_start=dict(filename=str(res1.outputs[0]), variables=[]), output=dict(period=dt, filename="leg2.nc"))
+    res2, _c2, _w = run_scenario(dict(world=None, run=run2), wd, conf_name="leg2.yaml", world=world)
+    if not res2.ok:
+        V.append(C.viol(f"warm-started continuation of the diffusion run did not complete: {res2.exc}", tb=res2.tb[-1200:], **desc))
+        return C.result(V, sit, cnt, nontrivial=True, key=str(desc), sample=desc)
+    rec2 = all_records(read_outputs(res2.outputs))
+    a, b = rec1[-1], rec2[-1]
+    if len(a.pid) == n and len(b.pid) == n and b.time > a.time:
+        k2 = int((b.time - a.time) / np.timedelta64(1, "s")) // dt
+        for name, x0, s2 in (("X", 30.0, 2 * D * dt / dx**2), ("Y", 30.0, 2 * D * dt / dx**2), ("Z", 50.0, 2 * Dz * dt)):
+            d1 = np.asarray(a.vars[name], float) - x0
+            d2 = np.asarray(b.vars[name], float) - np.asarray(a.vars[name], float)
+            r = float(np.corrcoef(d1, d2)[0, 1])
+            sit["restarted_run_step_independence_tests"] = sit.get("restarted_run_step_independence_tests", 0) + 1
+            if not abs(r) <= KSIG / np.sqrt(n):
+                V.append(C.viol(f"{name} displacements before and after a warm start are correlated (r = {r:.4f}, n = {n}): the steps of the continued simulation repeat the random "
+                                f"numbers of the first part", **desc))
+            v = float((d1 + d2).var(ddof=1))
+            tot = (sa + k2) * s2
+            sit["restarted_run_total_variance_tests"] = sit.get("restarted_run_total_variance_tests", 0) + 1
+            if not abs(v - tot) <= KSIG * tot * np.sqrt(2.0 / (n - 1)):
+                V.append(C.viol(f"after {sa} + {k2} steps (warm start in between) var({name}) = {v:.6g}, a random walk gives {tot:.6g} (ratio {v / tot:.4f})", **desc))
+    # third configuration in the same process: coefficients left out -> documented default 0 -> nothing moves in still water
+    rel3 = dict(rel, rows=[[C.T0, 50, 30.0, 30.0, 50.0]])
+    run3 = dict(start=C.T0, stop=str(tadd(C.T0, dt * 4)), dt=dt, advection="EF", release=rel3, output=dict(period=dt, filename="third.nc"))
+    res3, _c3, _w3 = run_scenario(dict(world=None, run=run3), wd, conf_name="third.yaml", world=world)
+    if not res3.ok:
+        V.append(C.viol(f"run without diffusion coefficients did not complete: {res3.exc}", tb=res3.tb[-1200:], **desc))
+    else:
+        for r in all_records(read_outputs(res3.outputs)):
+            sit["records_of_a_later_configuration_without_coefficients"] = sit.get("records_of_a_later_configuration_without_coefficients", 0) + 1
+            moved = [nm for nm, x0 in (("X", 30.0), ("Y", 30.0), ("Z", 50.0)) if np.any(np.asarray(r.vars[nm]) != x0)]
+            if moved:
+                V.append(C.viol(f"a configuration that leaves the diffusion coefficients out (default 0), run after one with D = {D:.4g}, Dz = {Dz:.4g} in the same process: "
+                                f"{moved} changed in still water by the record at {r.time} (std of X {float(np.std(r.vars['X'])):.4g} cells)", **desc))
+                break
+    return C.result(V[:3], sit, cnt, nontrivial=True, key=str(desc), sample=desc)
 
 
 def run_e2e(case: dict[str, Any], wd: Path) -> dict[str, Any]:
@@ -230,6 +294,8 @@ def run_case(case: dict[str, Any], wd: Path) -> dict[str, Any]:
         return run_e2e(case, wd)
     if case.get("kind") == "few":
         return run_few(case)
+    if case.get("kind") == "seq":
+        return run_seq(case, wd)
     from ladim.state import State  # noqa: PLC0415
     from ladim.timekeeper import TimeKeeper  # noqa: PLC0415
     from ladim.tracker import Tracker  # noqa: PLC0415
